@@ -22,7 +22,7 @@ pub struct GenParams {
 }
 
 pub const PAYOFF_FAMILIES: usize = 10;
-pub const WEIGHT_FAMILIES: usize = 6;
+pub const WEIGHT_FAMILIES: usize = 7;
 
 impl GenParams {
     /// A random parameter set; `size` in 0..=3 scales depth and node budget
@@ -110,6 +110,9 @@ impl Builder<'_> {
                 // small dyadic weights written in deep-subnormal units (positive and finite, hence
                 // legal; the sums are exact): anything that forms 1/total overflows here
                 5 => (2.0f64).powi(r.range(0, 4) as i32) * (2.0f64).powi(-520) * (2.0f64).powi(-530),
+                // ordinary weights next to ones so small that their normalised probability is
+                // exactly 0.0 (legal: every weight is positive and finite)
+                6 => *r.pick(&[5e-324, 1e-320, 1.0, 1.0, 3.0, 0.5]),
                 _ => (2.0f64).powi(r.range(0, 6) as i32 - 3),
             })
             .collect()
